@@ -60,7 +60,7 @@ pub const TABLE: &[(&str, &str)] = &[
     ("Field21E", "35x:ref"),
     ("Field23", "3!a:func [2!n:days] 11x:text"),
     ("Field23B", "4!c:code23b"),
-    ("Field23E", "4!c:code [\"/\"35x:info]"),
+    ("Field23E", "4!c:code23e [\"/\"35x:info]"),
     ("Field25NoOption", "[\"/\"] 35x:account"),
     ("Field25A", "\"/\"34x:account"),
     ("Field25P", "35x:account | 11c:bic"),
@@ -383,7 +383,7 @@ fn semantic(ty: &str, c: &Comp, v: &str) -> Verdict {
             // days are only allowed with the NOTICE function: other codes are not judged here
             if v == "NOT" { Verdict::Accept } else { Verdict::Unspecified("field23-function-days-interplay".into()) }
         }
-        "code" if ty == "Field23E" => {
+        "code23e" => {
             // documented 4!c, every known instruction code is alphabetic
             if v.chars().all(|ch| ch.is_ascii_uppercase()) { Verdict::Accept } else { Verdict::Unspecified("23e-code-with-digits".into()) }
         }
@@ -628,6 +628,7 @@ fn sample(c: &Comp, len: usize, k: usize) -> String {
         "tcode" => "TRF".into(),
         "code13c" => "SNDTIME".into(),
         "code23b" => "CRED".into(),
+        "code23e" => "CHQBPHONTELEHOLD".chars().cycle().take(len).collect(),
         "code71a" => ["SHA", "OUR", "BEN"][k % 3].into(),
         "code" if c.set == Set::A && c.max == 1 => "D".into(),
         "func" => "NOT".into(),
@@ -890,6 +891,19 @@ pub fn candidates(spec: &Spec, k: usize, r: &mut Rng, random_extra: usize) -> Ve
                         }
                     };
                     out.push(Candidate { content: render(spec, k, &over, &default_counts), component: comp_label.clone(), class: format!("ccy={cy}{am}") });
+                }
+            }
+            // over-long amounts / rates of ordinary magnitude (a length limit hidden behind a range check), and
+            // a missing integer part
+            if matches!(c.name.as_str(), "amount" | "rate") {
+                for extra in [1usize, 3] {
+                    let v = format!("1,{}", "2345678901234567890".chars().take(c.max + extra - 2).collect::<String>());
+                    let over = |l2: usize, c2: usize, rep: usize| if l2 == li && c2 == ci && rep == 0 { Some(format!("{}{}", c.lit, v)) } else { None };
+                    out.push(Candidate { content: render(spec, k, &over, &default_counts), component: comp_label.clone(), class: format!("len=max+{extra},small-integer-part") });
+                }
+                for v in [",50", ",5", ","] {
+                    let over = |l2: usize, c2: usize, rep: usize| if l2 == li && c2 == ci && rep == 0 { Some(format!("{}{}", c.lit, v)) } else { None };
+                    out.push(Candidate { content: render(spec, k, &over, &default_counts), component: comp_label.clone(), class: format!("no-integer-part={v}") });
                 }
             }
             // zero amounts / rates
